@@ -417,6 +417,11 @@ var $methodSet = typ => {
         typ.methodSetCache = [];
         return [];
     }
+    if (isPtr && typ.named) {
+        /* A defined pointer type (type P *T) has no methods. */
+        typ.methodSetCache = [];
+        return [];
+    }
 
     var current = [{ typ: isPtr ? typ.elem : typ, indirect: isPtr }];
 
